@@ -10,7 +10,10 @@ and data.  Asserted:
                recorded solver arguments equal (for all x, z3) those of the same
                model declared continuous (binary -> bounds [0,1]);
   binary elements carry lb=0, ub=1 whatever lb / ub were declared, through
-  every route."""
+  every route.
+Histories: the same obligations for a solve that is NOT the first solve of the
+problem object (after a relaxed solve, after a strict solve that raised, after
+solves with another method): the report is per solve, not per compilation."""
 from __future__ import annotations
 
 import warnings
@@ -115,23 +118,36 @@ def build(route, domain, linear, val):
     return obj, cons, uniq
 
 
-def run_case(route, domain, linear, method, strict, planted=False):
+def run_case(route, domain, linear, method, strict, planted=False, pre=()):
     from optyx import Problem
     from optyx.core.errors import IntegerVariableError
     from vf.engine.sym import SReal
     res = []
     tag = f"{route}/{domain}/{'lin' if linear else 'nl'}/{method}/{'strict' if strict else 'relaxed'}"
-    sig0 = f"{route}|{domain}|{'lp' if linear else 'nlp'}"
+    if pre:
+        tag += " after " + ",".join(f"{m}:{'strict' if s_ else 'relaxed'}" for m, s_ in pre)
+    sig0 = f"{route}|{domain}|{'lp' if linear else 'nlp'}" + ("|hist" if pre else "")
     allv = ["lb", "ub", "ly", "c", "r", "x", "y"] + [f"v[{i}]" for i in range(3)] + [f"A[{i},{j}]" for i in range(2) for j in range(2)] + [f"_diag_v[{i},{j}]" for i in range(2) for j in range(2)]
     val = K.sym_val(allv)
     val["_domain"] = domain
-    payload = dict(kind="case", route=route, domain=domain, linear=linear, method=method, strict=strict)
+    payload = dict(kind="case", route=route, domain=domain, linear=linear, method=method, strict=strict, pre=[list(x) for x in pre])
+
+    def history(prob, relaxed_only):
+        # earlier solves of the SAME problem object (their outcome is not the subject here)
+        for m, s_ in pre:
+            with stubs.patched(stubs.MinimizeStub("fixed"), stubs.LinprogStub("fixed")), warnings.catch_warnings():
+                warnings.simplefilter("ignore")
+                try:
+                    prob.solve(method=m, strict=False if relaxed_only else s_)
+                except Exception:  # noqa: BLE001
+                    pass
 
     def path():
         obj, cons, elems = build(route, domain, linear, val)
         p = Problem().minimize(obj)
         for c in cons:
             p.subject_to(c)
+        history(p, False)
         expected = [v.name for v in p.variables if any(v is e for e in elems)]
         nonc = [v.name for v in p.variables if v.domain != "continuous"]
         binb = [(v.name, v.lb, v.ub) for v in p.variables if v.domain == "binary"]
@@ -151,6 +167,7 @@ def run_case(route, domain, linear, method, strict, planted=False):
             p2.subject_to(c)
         for v_ in p2.variables:
             v_.domain = "continuous"
+        history(p2, True)
         twin = c13.capture(p2, method)
         return dict(expected=expected, nonc=nonc, binb=binb, exc=exc, ws=ws, calls=(ms.calls, ls.calls, exc), twin=twin, cols=[v.name for v in p.variables])
 
@@ -235,6 +252,18 @@ def items(tier, seed):
                         cases.append((route, domain, linear, method, strict))
     for ch in K.chunks(cases, 16):
         its.append(("cases", ch))
+    # histories: the solve under test is NOT the first solve of the problem object
+    hist = []
+    for route in ROUTES:
+        for domain in ("integer", "binary"):
+            for linear in (True, False):
+                for method in ["auto", "linprog", "SLSQP", "trust-constr", "L-BFGS-B"]:
+                    for strict in (True, False):
+                        other = "highs" if linear else "SLSQP"
+                        for pre in ([(method, False)], [(method, True)], [(other, False), (method, False)]):
+                            hist.append((route, domain, linear, method, strict, False, tuple(pre)))
+    for ch in K.chunks(hist, 16):
+        its.append(("cases", ch))
     return its
 
 
@@ -287,6 +316,14 @@ def replay(payload):
     ss.minimize, scipy.optimize.linprog = fm, fl
     exc = None
     try:
+        for m_, s_ in payload.get("pre", []):
+            with warnings.catch_warnings():
+                warnings.simplefilter("ignore")
+                try:
+                    p.solve(method=m_, strict=s_)
+                except Exception:  # noqa: BLE001
+                    pass
+        del calls[:]
         with warnings.catch_warnings(record=True) as w:
             warnings.simplefilter("always")
             try:
